@@ -91,8 +91,9 @@ RULE = ("every (channel class, NtE, antenna layout, Ns tuple in {1,2}^K, path lo
 C_TOL = 2000.0
 KAPPA_MAX = 1e7         # cases whose cancellation/condition factor exceeds this are excluded + counted
 FACTORS = (2.0, -0.5j, 1e-3, 1e-10, 1e8)
-RESCALE_ROUNDS_QUICK = 3   # round r multiplies column l of user k by FACTORS[(l+k+r) % 5]: 3 rounds
-#                            already give every factor to some column of every case; thorough: all 5
+RESCALE_ROUNDS_QUICK = 2   # round r multiplies column l of user k by FACTORS[(l+k+3r) % 5]: two rounds
+#                            give a tiny (1e-10) and a huge (1e8) factor to columns of every case
+#                            (even K=2, one stream each); thorough: all 5 rounds
 
 # scale families (SINR is a ratio: every relation is exactly scale covariant, every tolerance is
 # relative to the operands - there is no absolute floor anywhere in this check)
@@ -469,9 +470,19 @@ def sinr_close(lib, ref, kappa, c=C_TOL):
     return ne <= c, ne
 
 
+def zero_denominator(parts):
+    """a stream without any interference, external interference or noise has no defined SINR; and
+    when the denominator is below 2^-52 x 100 of the total received power the library's "total
+    covariance minus own-stream covariance" cancels to (possibly exactly) zero - SINR > 1e14 is
+    beyond what double precision can report with this algorithm.  Both are excluded and counted."""
+    return any(sum(p_[1:]) == 0 or kappa_of(p_) > 1e14 for row in parts for p_ in row)
+
+
 def decade(x):
     if x <= 0:
         return -99
+    if not math.isfinite(x):
+        return 999
     return int(math.floor(math.log10(x)))
 
 
@@ -606,12 +617,12 @@ def rescale_rounds(chk):
 
 
 def rescaled(U, r):
-    """every column l of every user's filter multiplied by FACTORS[(l + k + r) % len(FACTORS)]"""
+    """every column l of every user's filter multiplied by FACTORS[(l + k + 3 * r) % len(FACTORS)]"""
     out = []
     for k, Uk in enumerate(U):
         V = np.array(Uk, dtype=complex, copy=True)
         for l in range(V.shape[1]):
-            V[:, l] = V[:, l] * FACTORS[(l + k + r) % len(FACTORS)]
+            V[:, l] = V[:, l] * FACTORS[(l + k + 3 * r) % len(FACTORS)]
         out.append(V)
     return out
 
@@ -635,6 +646,9 @@ def run_chan_case(case, chk, live=None):
         Fl = inp["Fjp"] if jp else inp["F"]
         Ul = inp["U"]
         ref_sinr, parts = ref.sinr(Fl, Ul, jp)
+        if zero_denominator(parts):
+            chk.count("excluded_zero_denominator")
+            return
         record_outcomes(chk, case, ref_sinr, parts)
         chk.count("eval_hist_chan_observations" if live else "eval_chan_cases")
 
@@ -688,7 +702,7 @@ def run_chan_case(case, chk, live=None):
             if check_shape(chk, view, name + "_rescaled", case, got_r, Ns):
                 compare_sinr(chk, view, name + "_filter_rescale_invariance", case, got_r,
                              [[float(v) for v in got[k]] for k in range(K)], parts, record=False,
-                             den_scale=[[abs(FACTORS[(l + k + r) % len(FACTORS)]) ** 2
+                             den_scale=[[abs(FACTORS[(l + k + 3 * r) % len(FACTORS)]) ** 2
                                          for l in range(Ns[k])] for k in range(K)])
 
         # 5. covariance matrices
@@ -874,6 +888,9 @@ def run_solver_case(case, chk, live=None):
                 Ufull.append(Uk)
                 conds.append(SOLVE_SAFETY * cd)
         ref_sinr, parts = ref.sinr(fullF, Ufull, False)
+        if zero_denominator(parts):
+            chk.count("excluded_zero_denominator")
+            return
         record_outcomes(chk, case, ref_sinr, parts)
         chk.outcome("cond_WHF_decade", decade(max(conds) / (SOLVE_SAFETY if not (live and live["stale"]) else 1.0)))
 
@@ -1191,7 +1208,9 @@ def hist_new(cfg, data, second_solver=False):
     from pyphysim.ia.iabase import IASolverBaseClass
     ext = cfg["chan"] == "ext"
     st = HistState()
-    st.rejected = []          # (sub-call, raised?, object unchanged?) of every invalid call made
+    st.rejected = []          # (sub-call, raised?, object unchanged?) of every "atomic" invalid call
+    st.soft = []              # the same for invalid calls that are only recorded as outcomes
+    st.unknown = set()        # solver inputs ("F", "W") an unvalidated invalid call may have damaged
     st.ch = multiuser.MultiUserChannelMatrixExtInt() if ext else multiuser.MultiUserChannelMatrix()
     _hist_init(cfg, data, st, 0)
     st.sol = IASolverBaseClass(st.ch)
@@ -1225,7 +1244,14 @@ def _hist_init(cfg, data, st, mem):
 
 
 def invalid_calls(cfg, data, st, which):
-    """(name, thunk) of calls the library must reject; the object must stay as it was"""
+    """(name, thunk, policy) of invalid calls.
+    policy "atomic": the library rejects the call by raising before it touches anything - the
+    call must raise and channel + solver must stay exactly as they were (hard requirement).
+    policy "F" / "W": input the library does not promise to validate (a list of the wrong length):
+    whether it raises / is accepted / changes the object is only RECORDED as an outcome; the
+    requirement is coherence - the solver's precoders (filters) count as unknown until a valid
+    set_precoders (set_receive_filters) re-establishes them, after which every relation must hold
+    again against first principles."""
     K = data["K"]
     ext = cfg["chan"] == "ext"
     ch, sol = st.ch, st.sol
@@ -1236,31 +1262,37 @@ def invalid_calls(cfg, data, st, which):
     if which == "channel":
         calls = [
             ("init_from_channel_matrix(wrong shape)",
-             lambda: ch.init_from_channel_matrix(H1[:-1, :], Nr, Nt, K, *more)),
+             lambda: ch.init_from_channel_matrix(H1[:-1, :], Nr, Nt, K, *more), "atomic"),
             ("init_from_channel_matrix(K mismatch)",
-             lambda: ch.init_from_channel_matrix(H1, Nr, Nt, K + 1, *more)),
-            ("noise_var=-1", lambda: setattr(ch, "noise_var", -1.0)),
+             lambda: ch.init_from_channel_matrix(H1, Nr, Nt, K + 1, *more), "atomic"),
+            ("noise_var=-1", lambda: setattr(ch, "noise_var", -1.0), "atomic"),
         ]
         if ext:
             calls += [
                 ("init_from_channel_matrix(NtE not matching the matrix)",
-                 lambda: ch.init_from_channel_matrix(H1, Nr, Nt, K, [3, 1])),
+                 lambda: ch.init_from_channel_matrix(H1, Nr, Nt, K, [3, 1]), "atomic"),
                 ("set_pathloss(P, ext_int_pathloss missing)",
-                 lambda: ch.set_pathloss(np.ones((K, K)))),
+                 lambda: ch.set_pathloss(np.ones((K, K))), "atomic"),
             ]
         return calls
     return [
-        ("P=0", lambda: setattr(sol, "P", 0.0)),
-        ("P=[.., -1]", lambda: setattr(sol, "P", np.array([1.0] * (K - 1) + [-1.0]))),
-        ("P of wrong length", lambda: setattr(sol, "P", np.ones(K + 1))),
-        ("set_precoders()", lambda: sol.set_precoders()),
-        ("set_precoders(F of K-1 users)", lambda: sol.set_precoders(F=objarr(_unit(Fa)[:-1]))),
+        ("P=0", lambda: setattr(sol, "P", 0.0), "atomic"),
+        ("P=[.., -1]", lambda: setattr(sol, "P", np.array([1.0] * (K - 1) + [-1.0])), "atomic"),
+        ("P of wrong length", lambda: setattr(sol, "P", np.ones(K + 1)), "atomic"),
+        ("set_precoders()", lambda: sol.set_precoders(), "atomic"),
         ("set_precoders(F, P=[.., -1])",
-         lambda: sol.set_precoders(F=objarr(_unit(Fa)), P=np.array([1.0] * (K - 1) + [-1.0]))),
-        ("set_receive_filters()", lambda: sol.set_receive_filters()),
+         lambda: sol.set_precoders(F=objarr(_unit(Fa)), P=np.array([1.0] * (K - 1) + [-1.0])),
+         "atomic"),
+        ("set_receive_filters()", lambda: sol.set_receive_filters(), "atomic"),
         ("set_receive_filters(W, W_H)",
          lambda: sol.set_receive_filters(W=objarr([np.array(m_) for m_ in Wa]),
-                                         W_H=objarr([np.array(m_).conj().T for m_ in Wa]))),
+                                         W_H=objarr([np.array(m_).conj().T for m_ in Wa])),
+         "atomic"),
+        # unvalidated input: outcome recorded, coherence after the next valid setter required
+        ("set_precoders(F of K-1 users)", lambda: sol.set_precoders(F=objarr(_unit(Fa)[:-1])),
+         "F"),
+        ("set_receive_filters(W of K-1 users)",
+         lambda: sol.set_receive_filters(W=objarr([np.array(m_) for m_ in Wa][:-1])), "W"),
     ]
 
 
@@ -1299,23 +1331,32 @@ def hist_apply(cfg, data, st, ev):
             else:
                 ch.randomize(Nr, Nt, K)
     elif kind == "setF":
+        st.unknown.discard("F")
         if arg == "b":      # python lists are accepted too
             sol.set_precoders(F=[np.array(m_) for m_ in _unit(data["F"][arg])])
         else:
             sol.set_precoders(F=objarr(_unit(data["F"][arg])))
     elif kind == "setFull":
+        st.unknown.discard("F")
         sol.set_precoders(full_F=objarr([data["F"][arg][k] * (1.7 + 0.9 * k) for k in range(K)]))
     elif kind == "setBoth":
+        st.unknown.discard("F")
         # every argument at once, with a power back-off: full_F != sqrt(P) F
         sol.set_precoders(F=objarr(_unit(data["F"][arg])), full_F=objarr(backoff_full_F(data, arg)),
                           P=np.array(data["Pvec"]))
     elif kind == "setW":
+        st.unknown.discard("W")
         if arg in ("a", "c"):
             sol.set_receive_filters(W=objarr([np.array(m_) for m_ in data["W"][arg]]))
         else:
             sol.set_receive_filters(W_H=[np.array(m_).conj().T for m_ in data["W"][arg]])
     elif kind == "P":
-        sol.P = np.array(data["Pvec"]) if arg else None
+        try:
+            sol.P = np.array(data["Pvec"]) if arg else None
+        except Exception:           # noqa
+            if not st.unknown:
+                raise
+            st.p_failed = True      # (power not taken while the inputs are damaged)
     elif kind == "touch":
         if arg == "IC":
             ch.calc_SINR(objarr(data["F"]["a"]), objarr(data["U"]), *pe_touch)
@@ -1325,18 +1366,30 @@ def hist_apply(cfg, data, st, ev):
             ch.calc_JP_Q(0, objarr(data["Fjp"]), *pe_touch)
         elif arg == "solver2":
             st.sol2.calc_SINR()
+        elif st.unknown:
+            try:                    # inputs not re-established yet: anything may happen, nothing
+                sol.calc_SINR()     # is required - except that it must not poison what follows
+                sol.calc_Q(0)
+            except Exception:       # noqa
+                pass
         else:
             sol.calc_SINR()
             sol.calc_Q(0)
     elif kind == "bad":
-        for name, thunk in invalid_calls(cfg, data, st, arg):
+        for name, thunk, policy in invalid_calls(cfg, data, st, arg):
             before = _digest_state(st)
             raised = None
             try:
                 thunk()
             except Exception as e:          # noqa
                 raised = type(e).__name__
-            st.rejected.append((name, raised, _digest_state(st) == before))
+            same = _digest_state(st) == before
+            if policy == "atomic":
+                st.rejected.append((name, raised, same))
+            else:
+                st.soft.append((name, raised, same))
+                if not same:
+                    st.unknown.add(policy)
     else:
         raise ValueError(kind)
 
@@ -1422,8 +1475,12 @@ def _hist_observe_raw(chk, cfg, data, hist, st):
     """all state-dependent relations for the CURRENT state against the first-principles oracle"""
     m = hist_model(hist)
     ext = cfg["chan"] == "ext"
+    for name, raised, same in st.soft:
+        chk.outcome("unvalidated_invalid_call_outcome",
+                    (name, raised or "accepted", "objects unchanged" if same else "objects changed"))
     for name, raised, same in st.rejected:
         # an invalid call must raise and leave channel and solver exactly as they were
+        chk.outcome("rejected_call_outcome", (name, raised or "accepted", same))
         chk.count("eval_rejected_calls")
         if raised is None:
             chk.fail(("hist|errors", "rejected_call|%s|accepted_silently" % name),
@@ -1445,7 +1502,13 @@ def _hist_observe_raw(chk, cfg, data, hist, st):
         run_chan_case(dict(sub, var=var, pe=pe), chk,
                       live=dict(view="hist|%s_%s" % (cname, var), ch=st.ch,
                                 inp=inp if var == "IC" else dict(inp, U=data["U_tiny"])))
+    if st.unknown or getattr(st, "p_failed", False):
+        # precoders / filters damaged by an unvalidated invalid call and not re-established yet
+        chk.count("hist_solver_observations_skipped_inputs_not_reestablished")
+        return (m["mem"], m["pl"], m["noise"], "solver inputs unknown")
     Fn, P, fullF = model_precoders(m, data)
+    chk.outcome("solver_observed_after_reestablishing_inputs",
+                bool(st.soft) and any(not same for _, _, same in st.soft))
     run_solver_case(dict(sub, var=None, pe=None), chk,
                     live=dict(view="hist|%s" % ("solver_extint" if ext else "solver"),
                               inp=inp, ch=st.ch, sol=st.sol, Fn=Fn, P=P, fullF=fullF,
@@ -1473,7 +1536,8 @@ def run_hist_unit(unit, chk):
         def canon(hist, st):
             m = hist_model(hist)
             key = (m["mem"], m["pl"], m["noise"], m["F"], m["W"], m["P"], _digest_state(st),
-                   frozenset(r for r in st.rejected if not (r[1] and r[2])))
+                   frozenset(r for r in st.rejected if not (r[1] and r[2])),
+                   frozenset(st.unknown), bool(getattr(st, "p_failed", False)))
             last["key"] = key
             return key
 
@@ -1517,18 +1581,21 @@ def multi_objects(tier):
                     cls="IASolverBaseClass", alphabet="multi", depth=0)
     objs = {
         "A": (cfg("plain", None, [2, 2], [2, 2], [2, 1], 0), True,
-              [("pl", 1), ("noise", 2), ("init", 1), ("touch", "IC"), ("touch", "solver"),
+              [("pl", 1), ("noise", 2), ("touch", "IC"), ("touch", "solver"),
                ("touch", "solver2"), ("setW", "b")]),
         "C": (cfg("ext", 1, [2, 2], [2, 2], [2, 1], 1), False,
               [("pl", 2), ("noise", 3), ("touch", "IC"), ("touch", "JP"), ("touch", "solver"),
                ("setBoth", "b")]),
+        # objects of the same class AND shape as A / C (what a cache keyed on shapes confuses)
+        "D": (cfg("plain", None, [2, 2], [2, 2], [2, 1], 2), False,
+              [("pl", 2), ("touch", "IC"), ("touch", "solver")]),
+        "E": (cfg("ext", 1, [2, 2], [2, 2], [2, 1], 3), False,
+              [("pl", 1), ("touch", "IC"), ("touch", "solver")]),
     }
     if tier == "thorough":
         objs["B"] = (cfg("ext", [1, 1], [2, 3], [3, 2], [1, 2], 0), False,
-                     [("pl", 1), ("noise", 1), ("rand", 2), ("touch", "IC"), ("touch", "solver"),
-                      ("P", 1)])
-        objs["D"] = (cfg("plain", None, [2, 2], [2, 2], [2, 1], 1), False,
-                     [("pl", 2), ("noise", 3), ("touch", "JP"), ("touch", "solver"), ("setF", "b")])
+                     [("pl", 1), ("noise", 1), ("rand", 2), ("init", 1), ("touch", "IC"),
+                      ("touch", "solver"), ("P", 1)])
     return objs
 
 
@@ -1566,19 +1633,14 @@ def run_multi_sequence(seq, chk, tier):
         for lab, ev in seq:
             hist_apply(objs[lab][0], datas[lab], live[lab], tuple(ev))
         chk.count("eval_multi_object_sequences")
+        # phase 1: every live object is read and checked while no other object is created
+        # (constructing the lone objects first could reset shared state and hide a leak)
+        outputs = {lab: _lone_outputs(objs[lab][0], datas[lab], live[lab])
+                   for lab in sorted(objs, reverse=True)}
         for lab in sorted(objs):
             cfg, two, _ = objs[lab]
             data, st = datas[lab], live[lab]
             sub = tuple(tuple(ev) for l2, ev in seq if l2 == lab)
-            lone = hist_build(cfg, data, sub, two)
-            a, b = _lone_outputs(cfg, data, st), _lone_outputs(cfg, data, lone)
-            for fn in a:
-                chk.count("eval_multi_vs_lone_object")
-                if not (len(a[fn]) == len(b[fn]) and
-                        all(np.array_equal(np.asarray(x), np.asarray(y))
-                            for x, y in zip(a[fn], b[fn]))):
-                    chk.fail(("multi_object", cfg["chan"], "differs_from_lone_object", fn),
-                             dict(case, object=lab), observed=list(a[fn]), expected=list(b[fn]))
             tmp = chk.child_check()
             _hist_observe_raw(tmp, cfg, data, sub, st)
             if st.sol2 is not None:
@@ -1612,11 +1674,24 @@ def run_multi_sequence(seq, chk, tier):
                          msg="failing relations of object %s: %s"
                              % (lab, sorted(set("%s:%s" % (v["sig"][0].split("|")[-1], v["sig"][1])
                                                 for v in viol.values()))))
+        # phase 2: bit-for-bit comparison with lone objects that saw only their own events
+        for lab in sorted(objs):
+            cfg, two, _ = objs[lab]
+            sub = tuple(tuple(ev) for l2, ev in seq if l2 == lab)
+            lone = hist_build(cfg, datas[lab], sub, two)
+            a, b = outputs[lab], _lone_outputs(cfg, datas[lab], lone)
+            for fn in a:
+                chk.count("eval_multi_vs_lone_object")
+                if not (len(a[fn]) == len(b[fn]) and
+                        all(np.array_equal(np.asarray(x), np.asarray(y))
+                            for x, y in zip(a[fn], b[fn]))):
+                    chk.fail(("multi_object", cfg["chan"], "differs_from_lone_object", fn),
+                             dict(case, object=lab), observed=list(a[fn]), expected=list(b[fn]))
 
 
 def run_multi_unit(unit, chk):
     if "seq" in unit:                                   # replay of one stored sequence
-        tier = "thorough" if any(l in ("B", "D") for l in unit.get("tier_objects", [])) else "quick"
+        tier = "thorough" if "B" in unit.get("tier_objects", []) else "quick"
         run_multi_sequence([(lab, tuple(ev)) for lab, ev in unit["seq"]], chk, tier)
         return
     objs = multi_objects(chk.tier)
@@ -1666,6 +1741,20 @@ def main(chk: Check):
     chk.assume("Part H: randomize is driven through the seam multiuser.randn_c_RS (scripted to "
                "return a family member); states are merged only when the digest of every attribute "
                "of the real channel and solver objects (caches included) and the model state agree")
+    chk.assume("a stream whose first-principles denominator is exactly zero (no interferer, no "
+               "external source, no noise) has no defined SINR, and one whose SINR exceeds 1e14 "
+               "cannot be reported by 'total minus own-stream covariance' in double precision "
+               "(the subtraction may cancel to exactly zero -> ZeroDivisionError); such cases are "
+               "excluded and counted (excluded_zero_denominator)")
+    chk.assume("invalid calls (Part H 'bad' events): calls the library rejects by raising before "
+               "touching anything (set_receive_filters() with neither/both, set_precoders() / "
+               "set_precoders(F, P=invalid), P=invalid, init_from_channel_matrix with wrong shape / "
+               "K / NtE, ExtInt set_pathloss without the external part, noise_var<0) must raise and "
+               "leave channel and solver exactly as they were; unvalidated input (a list of K-1 "
+               "precoders or filters) is only recorded as an outcome, the affected solver inputs "
+               "count as unknown until a valid set_precoders / set_receive_filters, after which "
+               "every relation must hold again; wrong matrix shapes inside a list and negative pe "
+               "are outside the domain")
     chk.assume("matrices are members of the closed-form generic family (two superposed members "
                "with seed-rotated offsets); streams Ns_k <= min(Nr_k, Nt_k)")
     chk.extra["tolerance_c"] = C_TOL
@@ -1708,6 +1797,9 @@ def main(chk: Check):
     chk.require_outcomes("configuration", 100)
     chk.require_outcomes("history_model_state", 200)
     chk.require_outcomes("history_depth", 2)
+    chk.require_outcomes("rejected_call_outcome", 8)
+    chk.require_outcomes("unvalidated_invalid_call_outcome", 2)
+    chk.require_outcomes("solver_observed_after_reestablishing_inputs", 2)
     if not chk.counters.get("eval_multi_object_sequences", 0) >= 100:
         from vmc.report import Broken
         raise Broken("vacuous: multi-object sequences not executed")
